@@ -207,6 +207,18 @@ CLAIMED = {
   note=COMMON_NOTE + "the AST write-set extraction is syntactic (its link to semantic confinement is validated by snapshots, not proved); "
        "deepcopy/lru_cache/object identity as documented; one level of rules in the heap model.",
   design="§5 C20", technique="translation of Python ASTs into a Lean effect table + proof of non-interference over the effect model + effect validation and fresh-process differential"),
+ "C10": dict(
+  text="Lean theorems over the model of TreeGenerator block/_append_text_cb, _split_and_strip (incl. textwrap.dedent), tuple flattening, "
+       "PartialGenerator running, the vendor split + offside parse, _run_partial_generator, _combine_acl_text tagging, the exclusive "
+       "check, config_tree and _old_new_per_device (after repair e9aec0a): a program with a well-formed layout runs without raising and "
+       "parses to exactly the specified tree (every single-line yield is well formed now); a run fails with the generator error naming "
+       "the first uncovered line iff such a line exists; the exclusive filter raises iff a reached row has >=2 owners and names them; "
+       "merge_dicts is union of paths, first-seen order, associative, idempotent; new = the filtered union. 'new == union' is false of "
+       "the code when the merged ACL drops a line its own generator covers (C06 family) or a negated cant_delete line: kernel-checked "
+       "witnesses, 5 recorded findings. Tie: the real _old_new_per_device with synthetic PartialGenerators vs the model on 81k (quick) cases.",
+  note=COMMON_NOTE + "ACL text parsing (valkit) executed; Cisco/ASR/Juniper/Nokia/RouterOS splitters, RefGenerators, JuniperList, annotations, "
+       "perf/tracing not modelled; generator class names distinct.",
+  design="§5 C10", technique="Lean 4 proof (layout/offside composition, merge algebra, ACL ownership) + differential correspondence through the real entry point"),
 }
 REASONS = {}
 PENDING = {}
